@@ -127,15 +127,20 @@ def tags(p):
         t.append("stacked_quantifier")
     if "[" in stripped:
         t.append("has_set")
-        # contents of the sets, as CPython delimits them (a leading ']' is a member)
-        for m in re.finditer(r"\[(\^?)(\]?[^\]]*)\]", stripped):
-            content = m.group(2)
+        # contents of the sets, as CPython delimits them (a leading ']' is a member; escapes are kept)
+        for m in re.finditer(r"(?<!\\)\[(\^?)(\]?(?:\\.|[^\]\\])*)\]", p):
+            neg, content = m.group(1), m.group(2)
+            bare = re.sub(r"\\.", "", content)
             if content.startswith("]"):
                 t.append("set_leading_close_bracket")
-            if "." in content:
+            if "." in bare:
                 t.append("set_contains_dot")
-            if "[" in content:
+            if "[" in bare:
                 t.append("set_contains_open_bracket")
+            if neg and re.search(r"\\[dsw]", content):
+                t.append("negated_set_contains_shortcut")
+            if "$" in bare:
+                t.append("set_contains_dollar")
     if "\\" in p:
         t.append("has_escape")
     return t
